@@ -45,10 +45,9 @@ func (h *handler) authenticate(resp http.ResponseWriter, req *http.Request) bool
 	if err == nil {
 		ad := &AuthData{}
 		err = h.sc.Decode(authcookie, cookie.Value, ad)
-		if err == nil {
-			if ad.Expiration.Before(time.Now()) {
-				return true
-			}
+		if err == nil && !ad.Expiration.Before(time.Now()) {
+			// only an unexpired session is verified and accepted; an expired one
+			// has to log in again
 			inOrg, err := h.userInOrg(ad.AccessToken)
 			if err != nil {
 				log.Errorf("Unable to check if user is in org: %v", err)
